@@ -161,6 +161,14 @@ func hConcShape(zw *Writer, shape int, a, b []byte, sink2 *hSink, rfail int) (r 
 		note(zw.Close())
 		r.want = big
 		r.blocks = 2
+	case 13: // one full block and a tail through ReadFrom
+		big := hPattern(65536+len(a), 5)
+		src := &hSource{data: big, failAt: rfail}
+		_, err := zw.ReadFrom(src)
+		note(err)
+		note(zw.Close())
+		r.want = big
+		r.blocks = 2
 	case 10: // Write Flush Reset (no Close) Write Close: the first frame is abandoned, nothing else
 		_, err := zw.Write(a)
 		note(err)
